@@ -1,6 +1,6 @@
 """E13: self-validation of a property's rules on scratch copies of the CURRENT /repo tree (thorough tier).
 
-* benign twins  - reformat / rename-all-locals / noise variants of the current tree: the rules must report exactly the
+* benign twins  - reformat / rename-all-locals / noise / swap-independent-assignments / all-combined variants of the current tree: the rules must report exactly the
                   same finding keys as on the current tree (never more: that would be a false alarm on code where the
                   property holds exactly as much as before; never fewer: that would be a rule keyed on spelling).
 * breaking variants - every committed seeded change (seeded/*/patch.diff) that this property's rules are recorded to catch
@@ -45,7 +45,10 @@ def _twin(prop, src_root, kind):
     from . import variants
     tmp = _copy(src_root)
     try:
-        n = {"reformat": variants.reformat, "rename": variants.rename_locals, "noise": variants.noise}[kind](tmp)
+        if kind == "combo":
+            n = variants.rename_locals(tmp) + variants.swap_independent(tmp) + variants.noise(tmp)
+        else:
+            n = {"reformat": variants.reformat, "rename": variants.rename_locals, "noise": variants.noise, "swap": variants.swap_independent}[kind](tmp)
         rc, keys, out = _keys(prop, tmp)
         return {"variant": "benign:" + kind, "items": n, "rc": rc, "keys": keys}
     except Exception as e:
@@ -80,7 +83,7 @@ def run(chk, src_root, jobs=16):
     except Exception:
         matrix = {}
     muts = sorted(m for m, r in matrix.items() if prop in r.get("caught_by", []))
-    tasks = [("twin", k) for k in ("reformat", "rename", "noise")] + [("mut", m) for m in muts]
+    tasks = [("twin", k) for k in ("reformat", "rename", "noise", "swap", "combo")] + [("mut", m) for m in muts]
     results = []
     with ThreadPoolExecutor(max_workers=min(jobs, max(1, len(tasks)))) as ex:
         futs = [ex.submit(_twin, prop, src_root, k) if t == "twin" else ex.submit(_breaking, prop, src_root, k) for t, k in tasks]
@@ -108,7 +111,7 @@ def run(chk, src_root, jobs=16):
             summary.append({"variant": v, "fired": fired, "new_findings": len(r["keys"] - base_keys)})
             if not fired:
                 problems.append("%s applies to the current tree but %s's rules do not fire on it" % (v, prop))
-    chk.extra["self_validation"] = {"benign_twins": 3, "breaking_variants": len(muts), "results": summary}
+    chk.extra["self_validation"] = {"benign_twins": 5, "breaking_variants": len(muts), "results": summary}
     for s in summary[:6]:
         chk.sample({"self_validation": s})
     for pb in problems:
